@@ -298,29 +298,10 @@ theorem label_addressing (ln : List Str) (hne : ln ≠ []) (hnd : ln.Nodup) (val
     unfold Spec.Metrics.kwValue
     rw [find_of_mem_nodup p.1 p.2 kw hknd hm]
 
-theorem terase_cons {β : Type} (k : List Str) (kv : List Str × β) (t : List (List Str × β)) :
-    terase k (kv :: t) = if kv.1 = k then terase k t else kv :: terase k t := by
-  unfold terase
-  by_cases h : kv.1 = k <;> simp [List.filter, h]
-
+/-- (kept under this name for the modules that cite it; the proof lives in Lemmas.MetricsBasic) -/
 theorem tlookup_terase {β : Type} (k k' : List Str) (t : List (List Str × β)) :
-    tlookup k' (terase k t) = if k' = k then none else tlookup k' t := by
-  induction t with
-  | nil => simp [terase, tlookup]
-  | cons kv t ih =>
-    rw [terase_cons]
-    by_cases hk : kv.1 = k
-    · rw [if_pos hk, ih]
-      by_cases hk' : k' = k
-      · simp [hk']
-      · have : ¬ kv.1 = k' := fun e => hk' (e ▸ hk)
-        simp [hk', tlookup, this]
-    · rw [if_neg hk]
-      simp only [tlookup]
-      by_cases hk' : kv.1 = k'
-      · have : ¬ k' = k := fun e => hk (hk' ▸ e)
-        simp [hk', this]
-      · simp [hk', ih]
+    tlookup k' (terase k t) = if k' = k then none else tlookup k' t :=
+  Lemmas.Metrics.tlookup_terase k k' t
 
 /-- **`remove` deletes exactly the addressed child**: it returns, the addressed key is gone, every other child is
 untouched and keeps its place. -/
@@ -440,27 +421,11 @@ theorem buckets_monotone (htr : LeTrans V) (bounds : List V)
   rw [List.pairwise_map]
   exact hp.imp (fun {a b} h => countP_le_mono htr obs a b h)
 
-/-- the replayed buckets always have one cell per bound, so `inf_bucket_eq_count` applies to every reachable child -/
-theorem observeBuckets_length (o : V) : ∀ (bs cs : List V), (observeBuckets o bs cs).length = cs.length
-  | [], cs => by cases cs <;> rfl
-  | _ :: _, [] => rfl
-  | b :: bs, c :: cs => by
-    simp only [observeBuckets]
-    split
-    · rfl
-    · simp [observeBuckets_length o bs cs]
-
+/-- the replayed buckets always have one cell per bound, so `inf_bucket_eq_count` applies to every reachable child
+(proof in Lemmas.MetricsHist) -/
 theorem reachable_buckets_length (d : Decl V) (bs : List (V × Str)) (hk : d.kind = .histogram bs)
-    (acts : List (Action V)) : (childOf d acts).buckets.length = bs.length := by
-  obtain ⟨_, h2⟩ := histogram_cells d bs hk acts
-  rw [h2]
-  generalize observations acts = obs
-  have : ∀ (cs : List V), cs.length = bs.length →
-      (obs.foldl (fun cs o => observeBuckets o (bs.map (·.1)) cs) cs).length = bs.length := by
-    induction obs with
-    | nil => intro cs h; exact h
-    | cons o os ih => intro cs h; exact ih _ (by rw [observeBuckets_length]; exact h)
-  exact this _ (by simp)
+    (acts : List (Action V)) : (childOf d acts).buckets.length = bs.length :=
+  Lemmas.Metrics.reachable_buckets_length d bs hk acts
 
 /-- **The `+Inf` bucket equals `_count`**, literally: for every histogram a constructor accepted and every history
 of accepted calls, the last bound IS `+Inf`, and the value exposed for that bucket is the value of the `_count` sample
